@@ -77,13 +77,14 @@ Fixpoint scan_range (fuel : nat) (stop : bytes) (c : cursor) (acc : list bytes) 
       else SOk (rev acc)
   end.
 
-(* compiled: results of to_key for the matches, in order *)
-Fixpoint compile (l : list kres) : option (list bytes) :=     (* None = OverflowError escapes *)
+(* compiled: results of to_key for the matches, in order; a ValueError and (since the repair of the
+   out-of-range kind defect) an OverflowError skip the value, so the result is always Some *)
+Fixpoint compile (l : list kres) : option (list bytes) :=
   match l with
   | [] => Some []
   | KKey b :: r => option_map (cons b) (compile r)
   | KSkip :: r => compile r
-  | KOverflow :: _ => None
+  | KOverflow :: r => compile r
   end.
 
 Definition scanner (matches : list kres) : sres :=
@@ -117,7 +118,8 @@ Definition idx_has_time (i : idx) : bool := match i with IxIds => false | _ => t
 Definition index_scanner (ks : list bytes) (i : idx) (matches : list mval) (since until : option Z)
            (events : bytes -> bool) : sres :=
   let compiled := map (to_key i) matches in
-  (* the compile loop runs first (a ValueError skips, an OverflowError escapes), then since/until *)
+  (* the compile loop runs first (a ValueError or OverflowError of to_key skips the value), then since/until
+     (their to_bytes OverflowError escapes) *)
   match compile compiled with
   | None => SRaise
   | Some _ =>
